@@ -21,7 +21,8 @@ type Case struct {
 	A    int     `json:"a"`
 	B    int     `json:"b"`
 	N    int     `json:"n"`
-	Vals []int64 `json:"vals"` // 0..127: representable in every element type
+	Fix  int     `json:"fix,omitempty"` // fixture construction order, see kit.RootWindow
+	Vals []int64 `json:"vals"`          // 0..127: representable in every element type
 }
 
 var table = map[string]func(*Case) kit.Result{}
@@ -46,7 +47,7 @@ func init() {
 
 func Check(c *Case) kit.Result {
 	f, ok := table[c.T]
-	if !ok || c.C < 1 || c.Kr < 0 || c.A < 0 || c.A > c.B || c.B > c.Kr || c.C*c.Kr > 1<<20 || c.N < 0 || c.N > 1<<21 || len(c.Vals) == 0 {
+	if !ok || c.C < 1 || c.Kr < 0 || c.A < 0 || c.A > c.B || c.B > c.Kr || c.C*c.Kr > 1<<20 || c.N < 0 || c.N > 1<<21 || len(c.Vals) == 0 || c.Fix < 0 || c.Fix > 2 {
 		return kit.Result{}
 	}
 	for _, v := range c.Vals {
@@ -59,10 +60,9 @@ func Check(c *Case) kit.Result {
 
 func run[T signal.SignalTypes](c *Case) (res kit.Result) {
 	C := c.C
-	root := kit.Root[T](C, c.Kr)
+	root, w := kit.RootWindow[T](C, c.Kr, c.A, c.B, 0, c.Fix)
 	model := kit.RootModel[T](C, c.Kr)
 	rootHdr := kit.HdrOf(root)
-	w := root.Slice(c.A, c.B)
 	off, ln, cp := C*c.A, C*(c.B-c.A), C*(c.Kr-c.A)
 	bits := kit.BitsOf[T]()
 	if c.N > cp-ln {
@@ -125,7 +125,7 @@ func run[T signal.SignalTypes](c *Case) (res kit.Result) {
 func FP(c *Case) uint64 {
 	h := kit.NewHasher()
 	h.Str(c.T)
-	h.Ints([]int{c.C, c.Kr, c.A, c.B, c.N, len(c.Vals)})
+	h.Ints([]int{c.C, c.Kr, c.A, c.B, c.N, c.Fix, len(c.Vals)})
 	for _, v := range c.Vals {
 		h.Int(int(v))
 	}
@@ -153,6 +153,7 @@ func Gen(t *rapid.T) *Case {
 	default:
 		c.N = rapid.IntRange(0, spare+2*c.C+3).Draw(t, "n")
 	}
+	c.Fix = rapid.IntRange(0, 2).Draw(t, "fix")
 	nv := rapid.IntRange(1, 6).Draw(t, "nvals")
 	for i := 0; i < nv; i++ {
 		c.Vals = append(c.Vals, int64(rapid.IntRange(0, 127).Draw(t, "v")))
